@@ -44,8 +44,12 @@ PT(o, n) == IF n <= Len(o.traj) THEN o.traj[n].t ELSE o.tfin
 SureStop(o, n) == (EffTot(o) # None /\ SureGe(o, PT(o, n + 1), EffTot(o))) \/ (o.maxit # None /\ n >= o.maxit)
 MayStop(o, n)  == (EffTot(o) # None /\ MayGe(o, PT(o, n + 1), EffTot(o)))  \/ (o.maxit # None /\ n >= o.maxit)
 
+(* the clauses are TOTAL: a record whose iteration count disagrees with the number of states presented to calc_timestep
+   (C07_nit fails on it) is still judged on the points it has *)
+NT(o) == IF o.nit <= Len(o.traj) THEN o.nit ELSE Len(o.traj)
+
 (* ---- C07 (i): each full step advances the time by dt (by its minimum for an array) *)
-C07_advance(o) == \A n \in 1..o.nit : Nr(o, PT(o, n + 1), o.traj[n].tend)
+C07_advance(o) == \A n \in 1..NT(o) : Nr(o, PT(o, n + 1), o.traj[n].tend)
 
 (* ---- C07 (ii): the run stops at the first step that satisfies a stop criterion; nit counts full steps *)
 C07_nit(o) == /\ o.nit = Len(o.traj)
@@ -74,7 +78,7 @@ OnTraj(o, r) ==
   \E n \in r.srcs :
      /\ n \in 1..(o.nit + 1)
      /\ MayGe(o, r.t, PT(o, n))
-     /\ IF n <= o.nit THEN MayLe(o, r.t, o.traj[n].tend) ELSE Nr(o, r.t, o.tfin)
+     /\ IF n <= NT(o) THEN MayLe(o, r.t, o.traj[n].tend) ELSE Nr(o, r.t, o.tfin)
 
 C07_ontraj(o) == IsFallback(o) \/ \A i \in 1..Len(o.res) : OnTraj(o, o.res[i])
 C07_finite(o) == o.trajfin => \A i \in 1..Len(o.res) : o.res[i].fin
